@@ -173,7 +173,8 @@ def write_config(r):
         'table_id': r.choice([None, None, 'tbl-1', 'таблица "x"/7',
                               r.choice([x for x in gen.NULLISH
                                         if x.strip()])]),
-        'generated_by': r.choice(['vm-check', 'gén "q" 1.0', 'a\\b']),
+        'generated_by': r.choice(['vm-check', 'gén "q" 1.0', 'a\\b', '',
+                                  r.choice(gen.NULLISH)]),
         'date_variant': r.randrange(len(DATES)),
         'use_format_fs': r.random() < .08,
     }
